@@ -1272,9 +1272,17 @@ impl Drop for Debugger {
 
         match self.debugee.execution_status() {
             ExecutionStatus::Unload => {
-                signal::kill(self.debugee.tracee_ctl().proc_pid(), Signal::SIGKILL)
-                    .expect("kill debugee");
-                waitpid(self.debugee.tracee_ctl().proc_pid(), None).expect("waiting child");
+                let pid = self.debugee.tracee_ctl().proc_pid();
+                signal::kill(pid, Signal::SIGKILL).expect("kill debugee");
+                // the killed tracee may report PTRACE_EVENT_EXIT first: wait until it is
+                // really gone, otherwise it lingers in a tracing stop as long as we live
+                loop {
+                    match waitpid(pid, None) {
+                        Ok(WaitStatus::Exited(_, _)) | Ok(WaitStatus::Signaled(_, _, _)) => break,
+                        Ok(_) => _ = sys::ptrace::cont(pid, None),
+                        Err(_) => break,
+                    }
+                }
             }
             ExecutionStatus::InProgress => {
                 // ignore all possible errors on breakpoints disabling
